@@ -5,13 +5,27 @@ use serde_json::Value;
 
 pub mod common;
 pub mod c01;
+pub mod c02;
+pub mod c03;
+pub mod c04;
+pub mod c05;
+pub mod c06;
+pub mod c07;
+pub mod c08;
+pub mod c09;
+pub mod c10;
+pub mod c11;
+pub mod c12;
+pub mod c13;
+pub mod c15;
+pub mod c16;
 
 pub struct Prop {
     pub id: &'static str,
     pub level: &'static str,
     pub needs_model: bool,
     pub watchdog_s: u64,
-    pub on_timeout: fn(&Engine),
+    pub on_timeout: fn(&Engine, &[Value]),
     pub run: fn(&'static Engine),
     pub replay: fn(&Engine, &Value, &mut Obs) -> Result<(), Fail>,
 }
@@ -20,6 +34,20 @@ pub fn lookup(id: &str) -> Option<Prop> {
     let p = |id, run, replay| Prop { id, level: "exploration", needs_model: true, watchdog_s: 300, on_timeout: default_timeout, run, replay };
     Some(match id {
         "C01" => p("C01", c01::run, c01::replay),
+        "C02" => p("C02", c02::run, c02::replay),
+        "C03" => p("C03", c03::run, c03::replay),
+        "C04" => p("C04", c04::run, c04::replay),
+        "C05" => p("C05", c05::run, c05::replay),
+        "C06" => p("C06", c06::run, c06::replay),
+        "C07" => Prop { needs_model: false, ..p("C07", c07::run, c07::replay) },
+        "C08" => p("C08", c08::run, c08::replay),
+        "C09" => p("C09", c09::run, c09::replay),
+        "C10" => Prop { needs_model: false, watchdog_s: 120, on_timeout: c10::on_timeout, ..p("C10", c10::run, c10::replay) },
+        "C11" => p("C11", c11::run, c11::replay),
+        "C12" => Prop { needs_model: false, ..p("C12", c12::run, c12::replay) },
+        "C13" => Prop { needs_model: false, ..p("C13", c13::run, c13::replay) },
+        "C15" => p("C15", c15::run, c15::replay),
+        "C16" => Prop { needs_model: false, ..p("C16", c16::run, c16::replay) },
         _ => return None,
     })
 }
